@@ -24,7 +24,7 @@ def datahub_stage(v, sd, binary, name, *, ds, ent, contents, preds=("p",), max_b
                   per_world=400, rotate=False, target=None):
     """One TLC run of spec/Datahub.tla (exhaustive or simulation) + replay of everything it emitted."""
     consts = {"DsSeq": list(ds), "Ent": set(ent), "MaxBatch": max_batch, "MaxSteps": max_steps, "Acts": set(acts),
-              "ObsKinds": set(kinds), "Limits": set(limits), "Fan": fan, "Precreated": spec.startswith("SpecCreated"),
+              "ObsKinds": set(kinds), "Limits": set(limits), "Fan": fan, "Precreated": spec.startswith("SpecCreated"), "Writable": set(ds),
               "Readers": set() if not readers else verif.Raw("{" + ", ".join(verif.tla_value(r) for r in readers) + "}")}
     constraint = "Emit"
     if sample:
@@ -77,6 +77,11 @@ def check_C01(tier, seed):
     if thorough:
         datahub_stage(v, sd, binary, "C01_batch3", ds=["a"], ent=["e1", "e2"], contents=c01_contents()[:4],
                       max_batch=2, max_steps=3, tables=tabs, kinds=("ent", "look"), rotate=True)
+    # (a') more equal-length pairs: same-length key rename, string vs number vs array of equal length, single
+    #      reference vs array reference of equal length (entity names differ by the two bracket characters)
+    ce = [content(1), content(5), content(6), content(7), content(1, p=(1, ["e1xx"])), content(1, p=(2, ["e1"]))]
+    datahub_stage(v, sd, binary, "C01_eqlen", ds=["a"], ent=["e1", "e1xx"], contents=ce, max_batch=2, max_steps=2,
+                  tables="eqlen", kinds=("ent", "look"))
     # (b) two datasets sharing ids, transactions, unscoped merge
     c4 = [content(1), content(2), content(0, d=True), content(3)]
     datahub_stage(v, sd, binary, "C01_multi", ds=["a", "b"], ent=["e1", "e2"], contents=c4, max_batch=1,
@@ -398,4 +403,134 @@ def check_C20(tier, seed):
                   target=10000 if thorough else 1500)
     v.assumptions = ["native backup mode (badger Backup/Load); restore = badger Load of datahub-backup.kv into an empty "
                      "directory followed by a normal hub start", "one fresh store per behaviour"]
+    return v.finish(rule=RULE_REPLAY)
+
+
+# ----------------------------------------------------------------------------
+# jobs engine: C08, C10
+
+def jobs_stage(v, sd, binary, name, *, ds, ent, contents, jobs, writable, faults=({"k": "none"},),
+               types=("incremental",), fill=(), max_batch=1, max_steps=3, acts=("store", "job"),
+               kinds=("ent", "chg"), limits=(0,), tables="plain", classify=None, sample=False, seed=None, fan=4,
+               rotate=True, target=None, per_world=200, props=("Converges", "TokenSafe", "Idempotent"),
+               tlc_timeout=1500):
+    consts = {"DsSeq": list(ds), "Ent": set(ent), "MaxBatch": max_batch, "MaxSteps": max_steps, "Acts": set(acts),
+              "ObsKinds": set(kinds), "Limits": set(limits), "Fan": fan, "Precreated": True,
+              "Writable": set(writable), "Readers": set(),
+              "JobSeq": [dict(j, src=list(j["src"])) for j in jobs],
+              "JobTypes": set(types), "FillNs": set(fill),
+              "Faults": verif.Raw("{" + ", ".join(verif.tla_value(f) for f in faults) + "}")}
+    spec = "JSpecCreated" + ("Sample" if sample else "")
+    verif.gen_mc(sd, name, "Jobs", consts, spec, invariants=["TypeOK"] if sample else CORE_INV,
+                 props=() if sample else props, view=None if sample else "jview", contents=contents,
+                 constraint="JEmit", header="JEmitHeader")
+    out = os.path.join(v.wd, name + ".out")
+    st = verif.run_tlc(sd, name, out, timeout=tlc_timeout, seed=seed if sample else None, workers=4 if sample else None)
+    v.add_tlc(st)
+    stride_extra = 1
+    if target and st["emitted"] > target:
+        stride_extra = -(-st["emitted"] // target)
+        v.cov["stages"].append({"name": name + ":thinned", "emitted": st["emitted"], "replayed_every": stride_extra})
+    tot, results = verif.replay(binary, v.wd, out, tables=tables, adapters="go", label=name, stride_extra=stride_extra,
+                                per_world=per_world, rotate=rotate, seed=v.seed)
+    v.add_replay(tot, results, classify=classify, label=name)
+    os.remove(out)
+    return st, tot
+
+
+def job(id, src, sink, batch=1, lo=False, xf="none", par=1):
+    return {"id": id, "src": list(src), "sink": sink, "batch": batch, "lo": lo, "xf": xf, "par": par}
+
+
+JOB_FAULTS = [{"k": "none"}, {"k": "before", "n": 1}, {"k": "before", "n": 2}, {"k": "after", "n": 1},
+              {"k": "after", "n": 2}, {"k": "kill", "n": 1}]
+
+
+def job_contents():
+    # closed under "mark deleted" (full sync tombstones)
+    return [content(1), content(2), content(1, d=True), content(2, d=True)]
+
+
+def check_C08(tier, seed):
+    v = Verdict("C08", tier, seed)
+    v.wd = verif.workdir("C08")
+    sd = verif.spec_copy(v.wd)
+    binary = verif.build_harness(v.wd)
+    thorough = tier == "thorough"
+    jc = job_contents()
+    types = ("incremental", "fullsync")
+    d = 4 if thorough else 3
+    # (a) one source, batch size 1, every fault position, incremental and fullsync runs interleaved with writes
+    jobs_stage(v, sd, binary, "C08_b1", ds=["a", "s"], ent=["e1", "e2"], contents=jc, writable=["a"],
+               jobs=[job("j1", ["a"], "s", batch=1)], faults=JOB_FAULTS, types=types, max_steps=d)
+    # (b) batch size 2, latest-only source
+    jobs_stage(v, sd, binary, "C08_b2lo", ds=["a", "s"], ent=["e1", "e2"], contents=jc, writable=["a"],
+               jobs=[job("j1", ["a"], "s", batch=2, lo=True)], faults=JOB_FAULTS, types=types, max_steps=d)
+    # (c) union of two sources with disjoint id pools
+    jobs_stage(v, sd, binary, "C08_union", ds=["a", "b", "s"], ent=["e1", "e2"], contents=jc[:3], writable=["a", "b"],
+               jobs=[job("j1", ["a", "b"], "s", batch=1)], faults=JOB_FAULTS[:4], types=("incremental",),
+               max_steps=d)
+    # (d) deep sampled: two jobs (different batch sizes) into two sinks, all faults
+    jobs_stage(v, sd, binary, "C08_deep", ds=["a", "b", "s", "t"], ent=["e1", "e2", "e3"], contents=jc,
+               writable=["a", "b"], max_batch=2,
+               jobs=[job("j1", ["a"], "s", batch=2), job("j2", ["a", "b"], "t", batch=1), job("j3", ["b"], "s", batch=3, lo=True)],
+               faults=JOB_FAULTS, types=types, max_steps=9 if thorough else 7, sample=True, seed=seed,
+               fan=5 if thorough else 4, target=30000 if thorough else 4000)
+    v.assumptions = ["a run is executed synchronously through job.Run() with a recording / fault-injecting sink around "
+                     "the configured DatasetSink (overlay code, no product change)",
+                     "'after n' models the crash window between sink write and token store without killing the process; "
+                     "real process kills are part of the crash stage (C04)",
+                     "internal ids of the entity universe are pre-asserted in header order (order of full-sync deletions)"]
+    return v.finish(rule=RULE_REPLAY)
+
+
+def partition_stage(v, sd, max_n, max_p, as_coded=False):
+    """TLC over the (n, p) box of spec/Partition.tla."""
+    name = "Partition_%s" % ("ascoded" if as_coded else "fixed")
+    with open(os.path.join(sd, name + ".tla"), "w") as fh:
+        fh.write("---- MODULE %s ----\nEXTENDS Partition\n====\n" % name)
+    with open(os.path.join(sd, name + ".cfg"), "w") as fh:
+        fh.write("SPECIFICATION Spec\nCONSTANTS MaxN = %d MaxP = %d AsCoded = %s\n"
+                 "INVARIANTS NoNegativeChunk Covered Disjoint Ordered\nCHECK_DEADLOCK FALSE\n"
+                 % (max_n, max_p, "TRUE" if as_coded else "FALSE"))
+    out = os.path.join(v.wd, name + ".out")
+    st = verif.run_tlc(sd, name, out, timeout=600)
+    return st
+
+
+def check_C10(tier, seed):
+    v = Verdict("C10", tier, seed)
+    v.wd = verif.workdir("C10")
+    sd = verif.spec_copy(v.wd)
+    binary = verif.build_harness(v.wd)
+    thorough = tier == "thorough"
+    # (0) chunk arithmetic over the whole box (design level; the code is bound to it by the runs below)
+    st = partition_stage(v, sd, 200 if thorough else 64, 64 if thorough else 16)
+    v.add_tlc(st)
+    N = 24 if thorough else 12
+    P = 8 if thorough else 6
+    ents = ["e%02d" % i for i in range(1, N + 1)]
+    one = [content(1)]
+    # (a) every (n, p) of the box: one page of n entities through an identity transform with parallelism p, then
+    #     a second run (must add nothing)
+    jobs_stage(v, sd, binary, "C10_box", ds=["a", "s"], ent=ents, contents=one, writable=["a"],
+               jobs=[job("p%d" % p, ["a"], "s", batch=1000, xf="identity", par=p) for p in range(1, P + 1)],
+               fill=range(1, N + 1), acts=("fill", "job"), max_steps=3, tables="plain", props=("TokenSafe", "Idempotent"),
+               rotate=True)
+    # (b) batch sizes below n: several pages, each split again
+    n2 = 9 if thorough else 7
+    jobs_stage(v, sd, binary, "C10_pages", ds=["a", "s"], ent=ents[:n2], contents=one, writable=["a"],
+               jobs=[job("b%dp%d" % (b, p), ["a"], "s", batch=b, xf="identity", par=p) for b in (1, 2, 3, 5) for p in (2, 3, 4)],
+               fill=range(1, n2 + 1), acts=("fill", "job"), max_steps=2, tables="plain,shapes", types=("incremental", "fullsync"),
+               props=("TokenSafe", "Idempotent"), rotate=True)
+    # (c) transforms that duplicate or drop entities, over histories with deleted versions
+    jc = job_contents()
+    jobs_stage(v, sd, binary, "C10_xf", ds=["a", "s"], ent=["e1", "e2", "e3"], contents=jc, writable=["a"], max_batch=2,
+               jobs=[job("dup", ["a"], "s", batch=2, xf="dup", par=2), job("drop", ["a"], "s", batch=3, xf="dropdel", par=3),
+                     job("plain", ["a"], "s", batch=2, xf="none")],
+               types=("incremental", "fullsync"), max_steps=4 if thorough else 3, tables="plain,shapes",
+               props=("TokenSafe", "Idempotent"), rotate=True)
+    v.assumptions = ["what reaches the sink is recorded by a wrapper around the configured DatasetSink; with an identity "
+                     "transform this is exactly what the transform was given and returned",
+                     "JavaScript transforms: identity, duplicate-each, drop-deleted; parallelism applies to incremental runs"]
     return v.finish(rule=RULE_REPLAY)
